@@ -809,6 +809,125 @@ func TestCipherReaderFeedingModes(t *testing.T) {
 	})
 }
 
+// bulkSrc claims to have filled the caller's buffer without touching it
+// (the content of the bulk phase is irrelevant, only the byte count matters),
+// until `tail` is all that is left; the tail is delivered for real.
+type bulkSrc struct {
+	bulk int64
+	tail []byte
+}
+
+func (s *bulkSrc) Read(p []byte) (int, error) {
+	if s.bulk > 0 {
+		n := int64(len(p))
+		if n > s.bulk {
+			n = s.bulk
+		}
+		s.bulk -= n
+		return int(n), nil
+	}
+	if len(s.tail) == 0 {
+		return 0, io.EOF
+	}
+	n := copy(p, s.tail)
+	s.tail = s.tail[n:]
+	return n, nil
+}
+
+// lastN keeps only the last bytes written to it and the total count.
+type lastN struct {
+	total int64
+	last  []byte
+}
+
+func (l *lastN) Write(p []byte) (int, error) {
+	l.total += int64(len(p))
+	if len(p) >= 64 {
+		l.last = append(l.last[:0], p[len(p)-64:]...)
+	} else {
+		l.last = append(l.last, p...)
+		if len(l.last) > 64 {
+			l.last = l.last[len(l.last)-64:]
+		}
+	}
+	return len(p), nil
+}
+
+// More than 2^31 (thorough: and more than 2^32) bytes through ONE reader and
+// ONE writer without Reset, in 1 MiB pieces from a reusable buffer; the next
+// 64 bytes must be masked at the true 64-bit stream offset.
+func TestStreamBeyond2GiB(t *testing.T) {
+	if hx.Shard != 0 {
+		return
+	}
+	key := [4]byte{0x01, 0x02, 0x04, 0x08}
+	tail := pattern(64, 0xC0FFEE)
+	marks := []int64{1<<31 + 1}
+	if hx.Thorough() {
+		marks = append(marks, 1<<32+3)
+	}
+	const piece = 1 << 20
+	space := make([]byte, piece)
+
+	// reader: one object, one source object that the harness refills
+	src := &bulkSrc{}
+	cr := wsutil.NewCipherReader(src, key)
+	var total int64
+	for _, mark := range marks {
+		src.bulk, src.tail = mark-total, append([]byte(nil), tail...)
+		for total < mark {
+			n, err := cr.Read(space[:min(int64(piece), mark-total)])
+			total += int64(n)
+			if err != nil {
+				hx.Failf(t, map[string]int64{"streamed": total}, "CipherReader.Read after %d bytes: %v", total, err)
+				return
+			}
+		}
+		got := make([]byte, 64)
+		if _, err := io.ReadFull(cr, got); err != nil {
+			hx.Failf(t, map[string]int64{"streamed": mark}, "CipherReader.Read at stream offset %d: %v", mark, err)
+			return
+		}
+		total += 64
+		if want := ref.Mask(tail, key, mark); !bytes.Equal(got, want) {
+			hx.Failf(t, map[string]interface{}{"streamed_before": mark, "key": fmt.Sprintf("%x", key)}, "%s", diffMsg(fmt.Sprintf("CipherReader: the 64 bytes after %d streamed bytes are not masked at stream offset %d", mark, mark), got, want))
+			return
+		}
+		hx.NonTrivial(hx.Hash("reader-beyond", mark), func() interface{} {
+			return map[string]interface{}{"api": "CipherReader", "streamed_before": mark, "checked": 64}
+		})
+	}
+
+	// writer
+	dst := &lastN{}
+	cw := wsutil.NewCipherWriter(dst, key)
+	var fed int64
+	for _, mark := range marks {
+		for fed < mark {
+			n, err := cw.Write(space[:min(int64(1<<16), mark-fed)]) // 64 KiB: the largest size the writer takes from its pool
+			fed += int64(n)
+			if err != nil {
+				hx.Failf(t, map[string]int64{"streamed": fed}, "CipherWriter.Write after %d bytes: %v", fed, err)
+				return
+			}
+		}
+		if n, err := cw.Write(tail); n != 64 || err != nil {
+			hx.Failf(t, map[string]int64{"streamed": mark}, "CipherWriter.Write at stream offset %d = (%d, %v)", mark, n, err)
+			return
+		}
+		fed += 64
+		if want := ref.Mask(tail, key, mark); !bytes.Equal(dst.last, want) || dst.total != fed {
+			hx.Failf(t, map[string]interface{}{"streamed_before": mark, "key": fmt.Sprintf("%x", key)}, "%s", diffMsg(fmt.Sprintf("CipherWriter: the 64 bytes after %d streamed bytes are not masked at stream offset %d", mark, mark), dst.last, want))
+			return
+		}
+		hx.NonTrivial(hx.Hash("writer-beyond", mark), func() interface{} {
+			return map[string]interface{}{"api": "CipherWriter", "streamed_before": mark, "checked": 64}
+		})
+	}
+	hx.EvalN(2 * len(marks))
+	hx.Part("CipherReader/CipherWriter: 64 bytes checked at stream offset 2^31+1 (thorough: and 2^32+3) of one object without Reset", int64(2*len(marks)), true)
+}
+
 // errTransient is a non-fatal source error (a deadline that fired, a
 // temporary condition): the stream goes on afterwards.
 var errTransient = errors.New("c02: transient source error")
